@@ -301,3 +301,4 @@ def run(ctx):
 
     from engine.run import borrow
     borrow(ctx, 'C04', ['CODEC-ID'], 'an accepted combination must re-open as the same encoding: the code a writer arm emits is mapped back to its subformat by the reader')
+    borrow(ctx, 'C09', ['WH-DIV'], 'a parameter set that sf_format_check accepts must not crash the open: sample rate 0 is accepted by the check and has to be refused before a header writer divides by it')
